@@ -182,6 +182,7 @@ void table_print(const struct wcfg *c, char *out, size_t n);
  * quiescent; the monitors compare against the reference.  returns number of
  * service calls. */
 int world_run_bytes(const uint8_t *bytes, int n);
+extern int w_noread_value;
 extern const uint8_t *w_feed; extern int w_feed_n, w_feed_pos;  /* scripted input (GEN disabled when w_feed != NULL) */
 
 /* access to variable storage */
